@@ -281,6 +281,15 @@ fn rtcp(pt: u8, ssrc: u32) -> Vec<u8> {
     p.extend_from_slice(&ssrc.to_be_bytes());
     p
 }
+/// RTCP long enough to look like RTP to the latch (>= 12 bytes) whose bytes 8..12 carry `ssrc8`
+/// (e.g. the first report block's SSRC): only the packet-type range keeps it out of the RTP branch
+fn rtcp_long(pt: u8, sender_ssrc: u32, ssrc8: u32) -> Vec<u8> {
+    let mut p = vec![0x81u8, pt, 0, 7];
+    p.extend_from_slice(&sender_ssrc.to_be_bytes());
+    p.extend_from_slice(&ssrc8.to_be_bytes());
+    p.extend_from_slice(&[0u8; 20]);
+    p
+}
 
 struct GenStats { kinds: BTreeMap<String, u64>, lens: BTreeMap<usize, u64> }
 
@@ -314,7 +323,12 @@ fn gen_case(r: &mut Rng, stats: &mut GenStats, tier_long: bool) -> (SocketAddr, 
             Op::Recv(src(s as u8), rtp(SSRC_BAD, r.next() as u16, r.next() as u32, r.chance(1, 3), 20))
         } else if k < 74 {
             *stats.kinds.entry("rtcp".into()).or_default() += 1;
-            Op::Recv(src(s as u8), rtcp(*r.pick(&[200u8, 201, 205, 211, 199, 212]), *r.pick(&[SSRC_OK, SSRC_BAD])))
+            let pt = *r.pick(&[200u8, 201, 205, 210, 211, 211, 199, 212]);
+            if r.chance(1, 2) {
+                Op::Recv(src(s as u8), rtcp_long(pt, *r.pick(&[SSRC_OK, SSRC_BAD]), *r.pick(&[SSRC_OK, SSRC_OK, SSRC_BAD])))
+            } else {
+                Op::Recv(src(s as u8), rtcp(pt, *r.pick(&[SSRC_OK, SSRC_BAD])))
+            }
         } else if k < 79 {
             *stats.kinds.entry("short_or_other".into()).or_default() += 1;
             let choice = r.below(5);
@@ -388,6 +402,15 @@ fn corpus() -> Vec<(SocketAddr, Vec<Op>)> {
     // F24 witness: unset remote, RTCP from a stranger is adopted as the RTP destination
     v.push((SocketAddr::new(IpAddr::V4(Ipv4Addr::UNSPECIFIED), 0), vec![Op::SetExpectedSsrc(SSRC_OK), Op::EnableLatch,
         Op::Recv(b, rtcp(201, SSRC_BAD)), Op::Recv(a, rtp(SSRC_OK, 1, 0, false, 12))]));
+    // RTCP packet-type boundaries 200 and 211 (and the neighbours 199 / 212, which are RTP to the latch):
+    // a long RTCP packet whose bytes 8..12 equal the expected SSRC must not move or commit the RTP destination
+    for pt in [199u8, 200, 210, 211, 212] {
+        for max in [0u8, 4] {
+            v.push((a, vec![Op::SetProbationMax(max), Op::SetExpectedSsrc(SSRC_OK), Op::EnableLatch,
+                Op::Recv(b, rtcp_long(pt, SSRC_BAD, SSRC_OK)), Op::Recv(a, rtp(SSRC_OK, 1, 0, false, 12)),
+                Op::Recv(a, rtp(SSRC_OK, 2, 0, false, 12)), Op::Recv(a, rtp(SSRC_OK, 3, 0, false, 12))]));
+        }
+    }
     // saturating counters: 300 packets alternating with no rule firing is impossible (max<=255) — long run under max=255
     let mut ops = vec![Op::SetProbationMax(255), Op::EnableLatch];
     for i in 0..260u16 { ops.push(Op::Recv(src((i % 2) as u8), rtp(SSRC_OK, i.wrapping_mul(7), 0, false, 12))); }
